@@ -11,7 +11,7 @@ from vf.ref import incremental as refinc
 
 ID = "C04"
 BOUNDS = {
-    "quick": "20 defer/stream requests x site sets (<=3 awaitable sites incl. async-generator sources) x 6 data faults x early execution off/on x error propagation on/off x every completion order incl. consumer pulls (complete); early release <=1 on fault-free combinations with <=120 schedules",
+    "quick": "20 defer/stream requests (+2 without directives) x site sets (<=3 awaitable sites incl. async-generator sources) x 6 data faults x early execution off/on x error propagation on/off x every completion order incl. consumer pulls (complete); early release <=1 on fault-free combinations with <=120 schedules",
     "thorough": "early release <=2 on fault-free and <=1 on faulted combinations with <=2500 schedules; cap 300000 executions per exploration",
 }
 RULE = (
@@ -58,6 +58,8 @@ REQUESTS = [
      [["u1.friends:agen", "u1.nnFriends:items"], ["u2.nn"], ["u1.nnFriends:agen"]], None),
     ("nonnull_deferred", '{ me { id ... @defer(label: "a") { nn } } other { ... @defer(label: "b") { nn name } } }', {}, [["u1.nn", "u2.nn"], ["u2.name"]], None),
     ("stream_count0", '{ me { tags @stream(initialCount: 0) friends @stream(initialCount: 2) { id } } }', {}, [[], ["u1.friends:items"]], None),
+    ("plain_bg2", '{ me { name nn best { name nn } } boom }', {}, [["root.me", "u1.name"], ["root.me", "u1.best", "u2.name"]], None),
+    ("plain_bg1", '{ me { name nn } other { name best { nn name } } }', {}, [["u1.name", "u2.name"], ["root.other", "u3.name"]], None),
     ("deep", '{ me { best { ... @defer(label: "a") { name friends @stream(label: "s") { id ... @defer(label: "c") { nn } } } } } }', {"s": "a"},
      [["u2.name", "u3.nn"], ["u2.friends:agen"]], None),
 ]
